@@ -611,7 +611,7 @@ func init() {
 		ID: "C18", Level: "fault_enumeration",
 		Rule: "reads: for every corpus document and EVERY offset k in 0..len (TTML: up to the end of the root element) the stream delivers k bytes and then fails with each of six errors (a sentinel, io.ErrUnexpectedEOF bare and wrapped, an error whose text is EOF, a closed pipe, a timeout), in two shapes ((0,err) on the next call; the last bytes together with err) and under whole-buffer and 7-byte (thorough: 1,7,188,1024-byte) deliveries; oracle: a reader that reached the fault returns a non-nil error; over-long lines 65535..2^20 at three positions in srt/vtt/ssa: error or complete result; writes: for every parsed corpus document x every writer x every k in 0..len(output)-1 a destination that accepts k bytes then fails in three shapes (partial acceptance, rejection, a transient fault of exactly one Write call); oracle: non-nil error; fault-free run hands the complete output to the destination; file helpers: missing file, directory, a file whose first read fails (EIO), missing parent, path under a regular file, a destination that can be created but not written (/dev/full), a destination that exists and is longer than the new document x every extension; distinct = (document, offset, shape, delivery)",
 		Scope: map[core.Tier]string{
-			core.Quick:    "all corpus documents (hand-made + /repo/testdata) x every read offset x 2 shapes x 2 deliveries; 45 over-long-line documents; writes: every offset for hand-made documents and same-format testdata, block-structured offsets for cross-format testdata conversions; 42 file-helper cases",
+			core.Quick:    "all corpus documents (hand-made + /repo/testdata) x every read offset x 2 shapes x 2 deliveries; 45 over-long-line documents; writes: every offset for hand-made documents and same-format testdata, block-structured offsets for cross-format testdata conversions; 42 file-helper cases; write faults also under the per-call options of the TTML writer (no indent, tab) for the hand-made documents",
 			core.Thorough: "reads with 5 deliveries and, for documents <=2000 bytes, every fault offset under every single-split delivery (len^2/2 executions per document); writes at every offset for every document x writer pair",
 		},
 		Assumptions: []string{"Go toolchain and standard library", "astits for the transport-stream layer", "wrapping with %w is recorded but not required"},
